@@ -257,6 +257,9 @@ theorem off_step {p : Params} {c : Cfg} (i : Nat) (t : Tid) (hp : p.mode = .fixe
     | ctl =>
       obtain ⟨h1, h2⟩ := off_stepCtl i hp h ho
       exact ⟨h1, by simp [h2, turnOf]⟩
+    | ctl2 =>
+      rename_i hen
+      simp [enabled, h.g10] at hen
     | w j =>
       obtain ⟨h1, h2⟩ := off_stepW i j false hp h ho
       refine ⟨h1, ?_⟩
@@ -269,6 +272,7 @@ theorem off_step {p : Params} {c : Cfg} (i : Nat) (t : Tid) (hp : p.mode = .fixe
     refine ⟨ho, ?_⟩
     cases t with
     | ctl => simp [turnOf]
+    | ctl2 => simp [turnOf]
     | w j =>
       by_cases hj : j = i
       · simp only [enabled, Bool.not_eq_true] at hen
@@ -380,6 +384,7 @@ theorem C20_no_raise_no_dead_worker (p : Params) (calls : List Call) (c : Cfg)
     split
     · cases t with
       | ctl => exact quiet_stepCtl ih
+      | ctl2 => exact fun i => quiet_stepCtl (p := p) (c := swap c) ih i
       | w j =>
         intro i
         have hi := ih i
@@ -388,6 +393,67 @@ theorem C20_no_raise_no_dead_worker (p : Params) (calls : List Call) (c : Cfg)
         by_cases hij : i = j <;> cases hpc : (c.ws j).pc <;> simp_all [setW]
       | wx j => exact absurd rfl (hq j)
     · exact ih
+
+
+/-! ### overlapping controller calls (a SECOND controller thread, `Tid.ctl2`)
+
+  The property quantifies over ONE sequence of controller calls (`Inv.g10`: the second controller is
+  idle; every theorem above is about that case — `reachAll2_idle`).  `Monitor` has no lock: when
+  `stop()` from a second thread overlaps `graceful()` (= `stop(); start()`), the statements are
+  false — proved here by witness schedules, which the harness replays on the real code. -/
+
+inductive ReachAll2 (p : Params) (calls calls2 : List Call) : Cfg → Prop where
+  | init : ReachAll2 p calls calls2 (init2 calls calls2)
+  | step {c : Cfg} (t : Tid) : ReachAll2 p calls calls2 c → ReachAll2 p calls calls2 (step p c t)
+
+theorem init2_nil (calls : List Call) : init2 calls [] = init calls := by
+  unfold init2 init enter
+  cases calls with
+  | nil => rfl
+  | cons a r => cases a <;> rfl
+
+/-- a second controller without calls changes nothing: the two-controller system is the
+    one-controller system of the theorems above -/
+theorem reachAll2_idle {p : Params} {calls : List Call} {c : Cfg} (h : ReachAll2 p calls [] c) :
+    ReachAll p calls c := by
+  induction h with
+  | init => rw [init2_nil]; exact .init
+  | step t _ ih => exact .step t ih
+
+theorem reachAll2_run (p : Params) (calls calls2 : List Call) (sched : List Tid) :
+    ReachAll2 p calls calls2 (run p (init2 calls calls2) sched) := by
+  suffices ∀ c, ReachAll2 p calls calls2 c → ReachAll2 p calls calls2 (run p c sched) from this _ .init
+  induction sched with
+  | nil => intro c h; exact h
+  | cons t ts ih => intro c h; exact ih _ (.step t h)
+
+def c2N (n : Nat) : List Tid := List.replicate n .ctl2
+
+/-- `stop()` on a second thread while the first runs `graceful()`: the second `stop()` has cancelled
+    the worker; `graceful()` clears `Monitor.thread`; `self.thread.daemon` in the second thread then
+    dereferences `None` (AttributeError) -/
+theorem C20_overlapping_stop_crashes :
+    let c := run crashP (init2 [.start, .graceful] [.stop]) (ctlN 11 ++ c2N 5 ++ ctlN 9 ++ c2N 1)
+    c.c2.cpc = .crashed ∧ c.thread = none := by
+  decide +kernel
+
+/-- ... or worse: the second `stop()` evaluates `self.thread` (the old worker) for `cancel()`, the
+    first thread's `graceful()` replaces the worker, the second `stop()` then clears
+    `Monitor.thread` — the NEW worker is armed and running but no longer known to the monitor, and
+    the next `start()` puts a second armed worker beside it. -/
+def orphanSched : List Tid := ctlN 11 ++ c2N 4 ++ ctlN 21 ++ c2N 4 ++ ctlN 11
+
+theorem overlapping_orphan_witness :
+    let c := run crashP (init2 [.start, .graceful, .start] [.stop]) orphanSched
+    c.cpc = .done ∧ c.c2.cpc = .done ∧ c.nret = 3 ∧ c.c2.nret = 1 ∧ c.thread = some 2 ∧
+      (c.ws 1).running = true ∧ (c.ws 1).pc = .held ∧ (c.ws 2).running = true ∧ (c.ws 2).pc = .held := by
+  decide +kernel
+
+theorem C20_overlapping_stop_breaks_one_worker :
+    ¬ ∀ c, ReachAll2 crashP [.start, .graceful, .start] [.stop] c → OneWorker crashP c := by
+  intro h
+  have := h _ (reachAll2_run _ _ _ orphanSched) 1 2 (by decide +kernel) (by decide +kernel)
+  exact absurd this (by decide)
 
 /-! ### trace inclusion: what an admitted implementation trace inherits
 
@@ -416,10 +482,11 @@ theorem C20_admitted_trace_is_model_run {σ τ ο : Type} [DecidableEq ο] (step
     more invocation after `stop()` returned, exactly one armed worker after start/graceful, no crash -/
 theorem C20_admitted_M_safe (p : Params) (calls : List Call) (o0 : Obs)
     (tr : List (Tid × Obs)) (hp : p.mode = .fixed)
-    (h : admitsInit (step p) enabled obs keyStr FUEL (init calls) o0 tr = true) :
+    (h : admitsInit (step p) enabled obs keyStr FUEL (init2 calls []) o0 tr = true) :
     ∃ cs : List Cfg, cs.map obs = tr.map (·.2) ∧
       ∀ c ∈ cs, ReachAll p calls c ∧ OneWorker p c ∧ AtMostOnce c ∧ GracefulLeavesOne p c ∧
         c.cpc ≠ .crashed := by
+  rw [init2_nil] at h
   obtain ⟨_, cs, hf⟩ := C20Admit.admitsInit_sound _ _ _ _ _ _ _ _ h
   obtain ⟨h1, h2⟩ := C20Admit.follows_inv (P := ReachAll p calls) (fun _ t hc => .step t hc) .init hf
   refine ⟨cs, h2, fun c hc => ?_⟩
